@@ -145,7 +145,28 @@ def view(conn, role):
             # server's own chain): the chains are compared for full handshakes only
             "srvChainH": "" if conn.resumed else chain_h(s.serverCertChain),
             "cltChainH": "" if conn.resumed else chain_h(s.clientCertChain),
-            "resumed": bool(conn.resumed), "pskMode": ""}
+            "resumed": bool(conn.resumed), "pskMode": "", "sigKind": _sig(conn)[0], "sigHash": _sig(conn)[1]}
+
+
+def _sig(conn):
+    """(kind, hash) of the signature the SERVER made in this handshake as this endpoint knows it:
+    kind in "", "ecdsa", "rsa-pkcs1", "rsa-pss", "eddsa", "dsa" """
+    from tlslite.constants import SignatureScheme, SignatureAlgorithm, HashAlgorithm
+    sa = getattr(conn, "serverSigAlg", None)
+    if not sa or conn.resumed:
+        return "", ""
+    name = SignatureScheme.toRepr(tuple(sa))
+    if name in ("ed25519", "ed448"):
+        return "eddsa", ""
+    if name and name.startswith("rsa_pss"):
+        return "rsa-pss", name.rsplit("_", 1)[-1]
+    if name and name.startswith("rsa_pkcs1"):
+        return "rsa-pkcs1", name.rsplit("_", 1)[-1]
+    if name and name.startswith("ecdsa"):
+        return "ecdsa", name.rsplit("_", 1)[-1]
+    h = HashAlgorithm.toRepr(sa[0]) or ""
+    kind = {SignatureAlgorithm.rsa: "rsa-pkcs1", SignatureAlgorithm.ecdsa: "ecdsa", SignatureAlgorithm.dsa: "dsa"}.get(sa[1], "")
+    return kind, h
 
 
 def _psk_mode(wire):
@@ -333,6 +354,9 @@ def _run_pair(idx, cchoice, schoice, scred):
     if ok:
         res["c"] = view(p.c, "c")
         res["s"] = view(p.s, "s")
+        if not res["s"]["sigKind"] and res["c"]["sigKind"]:
+            # what the server signed with is what the client verified: it has to lie within the server's own policy
+            res["s"]["sigKind"], res["s"]["sigHash"] = res["c"]["sigKind"], res["c"]["sigHash"]
         if not res["s"]["group"] and res["c"]["group"]:
             # TLS <= 1.2: the server object does not expose the group of its own ServerKeyExchange; what the client
             # read from it is what the server chose and has to lie within the server's policy, too
